@@ -28,8 +28,14 @@ CHECKERS = ['Wire/CmdLineCheck']
 HEADER = ('From PV Require Import Base.Prelude Wire.Lex Wire.Strings Wire.StringsCheck '
           'Wire.ModUtf7 Wire.ModUtf7Check Wire.CmdLine Wire.CmdLineCheck.\n')
 
-MODELLED = {b'LOGIN': 2, b'DELETE': 1, b'SUBSCRIBE': 1, b'UNSUBSCRIBE': 1, b'NOOP': 0,
-            b'CAPABILITY': 0, b'LOGOUT': 0, b'STARTTLS': 0, b'CHECK': 0, b'CLOSE': 0}
+# the command table of Wire/CmdLine.v: word -> argument kinds
+#   s astring, m mailbox, p list-mailbox pattern, q sequence set, a status attribute list;
+#   '+o' = the command has an ExtensionOptions slot (modelled when no option list is sent)
+SHAPES = {b'LOGIN': 'ss', b'DELETE': 'm', b'SUBSCRIBE': 'm', b'UNSUBSCRIBE': 'm',
+          b'CREATE': 'm+o', b'SELECT': 'm+o', b'EXAMINE': 'm+o', b'RENAME': 'mm+o',
+          b'STATUS': 'ma', b'LIST': 'mp', b'LSUB': 'mp', b'COPY': 'qm', b'MOVE': 'qm',
+          b'NOOP': '', b'CAPABILITY': '', b'LOGOUT': '', b'STARTTLS': '', b'CHECK': '', b'CLOSE': ''}
+MODELLED = {w: len(k.replace('+o', '')) for w, k in SHAPES.items()}
 
 
 # ------------------------------------------------------------ fake transport
@@ -88,10 +94,24 @@ def enc_cmd(cmd) -> str | None:
     if word not in MODELLED:
         return None
     tag = B(cmd.tag)
+    if getattr(cmd, 'options', None):
+        return None                     # an option list: outside the modelled fragment
+    from .C18 import enc_seqset
+
+    def mb(name):
+        return f'(VMbox {T.codepoints(name)})'
     if word == b'LOGIN':
         args = [f'(VStr {B(cmd.userid)})', f'(VStr {B(cmd.password)})']
+    elif word == b'RENAME':
+        args = [mb(str(cmd.from_mailbox_obj)), mb(str(cmd.to_mailbox_obj))]
+    elif word == b'STATUS':
+        args = [mb(cmd.mailbox), '(VAttrs %s)' % T.lst(B(a.value) for a in cmd.status_list)]
+    elif word in (b'LIST', b'LSUB'):
+        args = [mb(cmd.ref_name), f'(VPat {T.codepoints(cmd.filter)})']
+    elif word in (b'COPY', b'MOVE'):
+        args = [f'(VSeq {enc_seqset(cmd.sequence_set.sequences)})', mb(cmd.mailbox)]
     elif MODELLED[word] == 1:
-        args = [f'(VMbox {T.codepoints(cmd.mailbox)})']
+        args = [mb(cmd.mailbox)]
     else:
         args = []
     return f'(Cmd {tag} {B(word)} {T.lst(args)})'
@@ -155,15 +175,36 @@ def gen_stream(rng) -> bytes:
         rng.choice([b'FOO', b'LOGINX', b'X', b'DELET', b'NOOPE'])
     tag = rng.choice([b'a', b'A001', b'x.y', b'1', b'ta]g', b'+', b'a+b'])
     out = tag + b' ' * rng.choice([1, 1, 2]) + rand_case(rng, word)
-    nargs = MODELLED.get(word, 1)
+    kinds = SHAPES.get(word, 's').replace('+o', '')
     if rng.random() < 0.1:
-        nargs += rng.choice([-1, 1])
-    for _ in range(max(nargs, 0)):
-        if MODELLED.get(word) == 1 and rng.random() < 0.7:
-            v = rng.choice([modutf7_encode(gen_name(rng)), b'inbox', b'&AOk', b'&', b'&A-'])
+        kinds = kinds[:-1] if rng.random() < 0.5 else kinds + 's'
+    for kd in kinds:
+        sp = b' ' * rng.choice([1, 1, 1, 2, 3])
+        if kd == 'q':
+            from .C18 import gen_seq_bytes
+            out += sp + (gen_seq_bytes(rng).strip() or b'1')
+        elif kd == 'a':
+            attrs = [rand_case(rng, rng.choice([b'MESSAGES', b'RECENT', b'UIDNEXT', b'UIDVALIDITY',
+                                                b'UNSEEN', b'MAILBOXID', b'FOO']))
+                     for _ in range(rng.randint(0, 3))]
+            out += sp + rng.choice([b'(', b'( ', b' (']) + rng.choice([b' ', b' ', b'  ', b'']).join(attrs) \
+                + rng.choice([b')', b' )', b''])
+        elif kd == 'p':
+            v = rng.choice([b'*', b'%', b'a/%', b'*x*', b'', b'a b', b'&AOk-*', b'&A-', b'x]y', b'"'])
+            opts = [s for s in (('atom', v, None),) if v and all(
+                0x21 <= c <= 0x7e and chr(c) not in '(){"\\' for c in v)]
+            from .C18_strings import spellings
+            opts += [s for s in spellings(v) if s[0] != 'atom']
+            k_, line, payload = rng.choice(opts)
+            out += sp + line + (payload or b'')
         else:
-            v = gen_value(rng)
-        out += b' ' * rng.choice([1, 1, 1, 2, 3]) + spell(rng, v)[0]
+            if kd == 'm' and rng.random() < 0.7:
+                v = rng.choice([modutf7_encode(gen_name(rng)), b'inbox', b'&AOk', b'&', b'&A-'])
+            else:
+                v = gen_value(rng)
+            out += sp + spell(rng, v)[0]
+    if '+o' in SHAPES.get(word, '') and rng.random() < 0.08:
+        out += rng.choice([b' (CONDSTORE)', b'(X)', b' ()'])
     out += b' ' * rng.choice([0, 0, 0, 1, 2]) + rng.choice([b'\r\n', b'\r\n', b'\n'])
     r = rng.random()
     if r < 0.25:
@@ -320,6 +361,10 @@ TEMPLATES = [
     ('append_big', ['create'], b'APPEND', [('m', None), ('lit', b'Subject: big\r\n\r\n' + b'x' * 4990 + b'\r\n')],
      ['status']),
     ('copy', ['create', 'selinbox'], b'COPY', [('r', b'1'), ('m', None)], ['status']),
+    ('move', ['create', 'selinbox'], b'MOVE', [('r', b'2:3'), ('m', None)], ['status']),
+    ('lsub', ['create'], b'LSUB', [('s', b''), ('m', None)], []),
+    # no string argument: letter case of the word and spacing only
+    ('store', ['selinbox'], b'STORE', [('r', b'1'), ('r', b'+FLAGS'), ('r', b'(\\Flagged $Foo)')], []),
     ('search_subject', ['selinbox'], b'SEARCH', [('r', b'SUBJECT'), ('s', None)], []),
     ('search_header', ['selinbox'], b'SEARCH', [('r', b'HEADER'), ('s', b'Subject'), ('s', None)], []),
     ('search_charset', ['selinbox'], b'SEARCH', [('r', b'CHARSET'), ('s', b'UTF-8'),
@@ -422,6 +467,8 @@ def e2e_monitor(ctx) -> None:
             values = [None]
         elif tname == 'append_big':
             values = ['Foo', 'a b']
+        elif tname == 'store':
+            values = [None]
         else:
             values = NAMES
         for v in values:
@@ -490,7 +537,7 @@ def e2e_monitor(ctx) -> None:
                              'line_b': line.hex(), 'setup': setup_}, obs)
                 break
         # reported names decode to the created name (reference decoder)
-        if tname not in ('create', 'subscribe', 'append', 'append_big', 'copy'):
+        if tname not in ('create', 'subscribe', 'append', 'append_big', 'copy', 'move'):
             continue
         for var, line, res in [r for r in results if r[0]['kinds'] == 'lit'][:1]:   # all-{n} sibling
             for key, kind in (('list', b'LIST'), ('lsub', b'LSUB'), ('status', b'STATUS')):
@@ -576,7 +623,8 @@ def e2e_from_stream(ctx, stream: bytes) -> bool:
     if parsed is None:
         return False
     tag, word, vals, rest = parsed
-    if word.upper() not in MODELLED or len(vals) != MODELLED[word.upper()]:
+    kinds = SHAPES.get(word.upper(), 'x').replace('+o', '')
+    if len(vals) != len(kinds) or set(kinds) - set('smp'):
         return False
     sib = tag + b' ' + word
     for v in vals:
@@ -653,11 +701,21 @@ def section(ctx) -> None:
                    b'a DELETE {6+}\r\nab{2+}\r\nb NOOP\r\n', b'a DELETE {6}\r\nab{2+}\r\nb NOOP\r\n',
                    b'a NOOP\r\n', b'a noop \n', b'a NOOP x\r\n', b'a\r\n', b'\r\n', b'a LOGIN u\r\n',
                    b'a DELETE &AOk-\r\n', b'a DELETE &AOk\r\n', b'a DELETE &A-\r\n', b'a DELETE inbox\r\n',
-                   b'a LOGIN {3}\r\nab', b'a LOGIN {3+}\r\nab', b'a LOGIN u p', b'']
-        streams += sweep([b'a LOGIN {1+}\r\nu "p"\r\nb', b'a DELETE {1}\r\nx\r\n'], vals_, not quick)
-        streams += [gen_stream(rng) for _ in range(ctx.scale(900, 25000))]
-        streams = thin(ctx, streams, 900)
+                   b'a LOGIN {3}\r\nab', b'a LOGIN {3+}\r\nab', b'a LOGIN u p', b'',
+                   b'a CREATE Foo\r\n', b'a create {3}\r\nFoo (X)\r\n', b'a SELECT "a b" \r\n',
+                   b'a EXAMINE inbox (CONDSTORE)\r\n', b'a RENAME {1}\r\na {1+}\r\nb\r\nnext',
+                   b'a STATUS Foo (MESSAGES unseen)\r\n', b'a STATUS {3+}\r\nFoo  ( RECENT )\r\n',
+                   b'a STATUS Foo ()\r\n', b'a STATUS Foo (FOO)\r\n', b'a STATUS Foo (MESSAGESUNSEEN)\r\n',
+                   b'a LIST "" *\r\n', b'a lsub {0}\r\n "a/%"\r\n', b'a LIST x {3+}\r\n&A-\r\n',
+                   b'a LIST "" a]b*\r\n', b'a COPY 1:* Foo\r\n', b'a move 2,4:7 {3}\r\nFoo\r\n',
+                   b'a COPY 0 Foo\r\n', b'a COPY 1: Foo\r\n', b'a COPY  1  "x" \n']
+        streams += thin(ctx, sweep([b'a LOGIN {1+}\r\nu "p"\r\nb', b'a DELETE {1}\r\nx\r\n',
+                                    b'a STATUS x (UNSEEN)\n', b'a COPY 1:2 x\n', b'a LIST "" %\n'],
+                                   vals_, not quick), 450, keep=0)
+        streams += [gen_stream(rng) for _ in range(ctx.scale(800, 12000))]
+        streams = list(dict.fromkeys(streams))
         cr, cc, keep_r, keep_c = [], [], [], []
+        hist = ctx.extra.setdefault('read_command_by_class', {})
         for st in streams:
             res = await impl_read_command(config, st)
             if res is None:
@@ -666,6 +724,7 @@ def section(ctx) -> None:
                 ctx.count(('read', st), nontrivial=False)
             else:
                 term = enc_cmd(res[0])
+                hist[type(res[0]).__name__] = hist.get(type(res[0]).__name__, 0) + 1
                 if term is not None:
                     cr.append(T.pair(B(st), T.option(T.pair(term, B(res[1]), T.N(res[2])))))
                     keep_r.append(st)
